@@ -59,7 +59,7 @@ var fnQuoteF = []string{"fees.standard", "fees.data"}
 var fnOutF = []string{"o.Satoshis", "o.LockingScript"}
 var fnTxF = []string{"tx.Inputs", "tx.Outputs", "tx.Version", "tx.LockTime"}
 
-func init() { fnList = append(fnList, fnTxList...) }
+func init() { fnList = append(append(fnList, fnTxList...), fnSigHashList...) }
 
 // the structs of package bt whose records are printed, by name (reset on every run)
 var fnStructs = map[string]*types.Named{}
